@@ -170,6 +170,10 @@ pub enum Step {
     /// create the future of a send without polling it, run `other` to completion, then await the
     /// first future (or drop it unpolled): what the losing branch of a select! looks like
     SendThen { kind: SendKind, slot: u8, msg: MsgSpec, other: Box<Step>, drop_first: bool },
+    /// two asks issued by one hook and awaited together (futures::join!)
+    JoinAsk { slot_a: u8, msg_a: MsgSpec, slot_b: u8, msg_b: MsgSpec },
+    /// an ask joined with a branch that yields once and then panics (the ask future is destroyed by unwinding)
+    JoinAskPanic { slot: u8, msg: MsgSpec },
     Stop(u8),
     Kill(u8),
     CloneH { from: u8, to: u8 },
